@@ -26,7 +26,41 @@
    beyond the generic one; that this is the case for the translated kernels is TESTED on traced
    real launches by re-running them in reverse and random orders inside Coq (bin/props/C11.py). *)
 From Coq Require Import List Permutation.
-From VF Require Import Proof.Sched Props.C16 Props.C01 Props.C02 Props.C28 Props.C29 Props.C09.
+From Coq Require Import ZArith.
+From VF Require Import Base.Scalar Proof.Sched Props.C16 Props.C01 Props.C02 Props.C28 Props.C29 Props.C09 Proof.WakeTree.
+Local Open Scope Z_scope.
+
+(* waking by contact, on the MACHINE-TRANSLATED procedure sleep._wake_tree (Gen/T_sleep.v p__wake_tree, called
+   by the wake kernels): for a tree that is awake or asleep in a one-tree cycle, two wakes in either order leave
+   the same array - the stored countdown is the minimum - and no other cell changes.  (For multi-tree cycles the
+   countdown is order dependent: C11_wake_collision_refuted below.) *)
+Theorem C11_wake_tree_merges_by_min :
+  forall (S : Type) (Sc : Scalar S) ntree w t v1 v2 orc1 orc2 f,
+    wakeable ntree w t f -> v1 < 0 -> v2 < 0 ->
+    forall w' t',
+      wake (S := S) ntree w t v2 orc2 (wake (S := S) ntree w t v1 orc1 f) w' t'
+      = upd f w t (if f w t <? 0 then Z.min (f w t) (Z.min v1 v2) else Z.min v1 v2) w' t'.
+Proof. intros S Sc. exact (@wake_twice S Sc). Qed.
+Print Assumptions C11_wake_tree_merges_by_min.
+
+Theorem C11_wake_tree_two_wakes_commute :
+  forall (S : Type) (Sc : Scalar S) ntree w t v1 v2 o1 o2 o3 o4 f,
+    wakeable ntree w t f -> v1 < 0 -> v2 < 0 ->
+    forall w' t',
+      wake (S := S) ntree w t v2 o2 (wake (S := S) ntree w t v1 o1 f) w' t'
+      = wake (S := S) ntree w t v1 o4 (wake (S := S) ntree w t v2 o3 f) w' t'.
+Proof. intros S Sc. exact (@wake_commute S Sc). Qed.
+Print Assumptions C11_wake_tree_two_wakes_commute.
+
+Theorem C11_wake_tree_touches_own_cell_only :
+  forall (S : Type) (Sc : Scalar S) ntree w t v orc f,
+    wakeable ntree w t f -> forall w' t', (w', t') <> (w, t) -> wake (S := S) ntree w t v orc f w' t' = f w' t'.
+Proof. intros S Sc. exact (@wake_other_untouched S Sc). Qed.
+Print Assumptions C11_wake_tree_touches_own_cell_only.
+
+Example C11_wake_tree_hypotheses_satisfiable :
+  let f := fun (_ t : Z) => if t =? 1 then 1 else (-5) in wakeable 3 0 1 f /\ -11 < 0 /\ -3 < 0.
+Proof. exact wake_example. Qed.
 
 Theorem C11_commuting_tasks_any_schedule :
   forall (St T : Type) (step : St -> T -> St) (l l' : list T),
